@@ -94,6 +94,14 @@ def timingField (f : String) : Bool := timingFields.contains f
 /-- Agreement of two configurations on a list of parameters. -/
 def agreeOn (fs : List String) (a b : ChanCfg) : Bool := fs.all fun f => get a f == get b f
 
+/-- Two channel lists agree pairwise on the timing fields. -/
+def chansAgree (l₁ l₂ : List ChanCfg) : Bool :=
+  l₁.length == l₂.length && (l₁.zip l₂).all fun (a, b) => agreeOn timingFields a b
+
+/-- Two devices whose channels (in order) and DMMs agree on every timing field; limits, maximal
+sequence duration and channel reusability are free. -/
+def devicesAgree (d₁ d₂ : Device) : Bool := chansAgree d₁.chans d₂.chans && chansAgree d₁.dmms d₂.dmms
+
 /-- `min_retarget_interval` as far as `add_target` can see it: when the fixed retarget time covers
 it, it plays no role (`retargetDelta` then always equals `fixed_retarget_t`). -/
 def effMinRetarget (c : ChanCfg) : Nat :=
@@ -167,6 +175,12 @@ def strictMissing (params sampleChecks : List String) : List String :=
   timingFields.filter fun f =>
     !(params.contains f) && !(dynamicFields.contains f && sampleArrays.all sampleChecks.contains)
 
+/-- Global channels have no retarget interval (`min_retarget_interval is None`; 0 in the model). -/
+def retargetWF (c : ChanCfg) : Bool := c.isLocal || decide (c.minRetarget ≤ c.fixedRetarget)
+
+/-- The configuration without its EOM (a channel whose EOM mode the sequence never enables). -/
+def noEom (c : ChanCfg) : ChanCfg := { c with eom := none }
+
 /-! ## (c) Channel matching and replay -/
 
 /-- A channel of the new device: a regular channel (index in `channel_objects`) or a DMM. -/
@@ -191,14 +205,16 @@ def paramsToCheck (old new : ChanCfg) : List String :=
   ["mod_bandwidth", "fixed_retarget_t", "clock_period"] ++
     (if checkRetarget old || checkRetarget new then ["min_retarget_interval"] else [])
 
-/-- `check_channels_match` for a non-parametrized sequence, in statement order. -/
+/-- `check_channels_match` for a non-parametrized sequence, in statement order (each comparison
+written through `get`, old channel first). -/
 def checkChannelsMatch (old new : ChanCfg) (eomActive strict : Bool) : MatchRes :=
-  if !(get old "type" == get new "type" && old.basis == new.basis && old.isLocal == new.isLocal) then
-    .nonStrict
-  else if eomActive && new.eom.isNone then .nonStrict
-  else if eomActive && strict && (new.eom.map (·.rise)) != (old.eom.map (·.rise)) then .strict
+  if !(get old "type" == get new "type" && get old "basis" == get new "basis"
+        && get old "addressing" == get new "addressing") then .nonStrict
+  else if eomActive && !new.eom.isSome then .nonStrict
+  else if eomActive && strict && !(get old "eom_config.mod_bandwidth" == get new "eom_config.mod_bandwidth") then
+    .strict
   else if !strict then .ok
-  else if (paramsToCheck old new).all fun p => get new p == get old p then .ok
+  else if (paramsToCheck old new).all fun p => get old p == get new p then .ok
   else .strict
 
 /-- All parameters `checkChannelsMatch` can compare when `strict`, in source order (pinned against
